@@ -66,6 +66,11 @@ pub enum RunEnd {
 
 struct TState {
     name: String,
+    /// last named point this thread stopped at
+    last_stop: String,
+    /// the thread has taken a region-metadata write lock after the `*:after_copy` point of a
+    /// write path (that is where a writer publishes its new length)
+    took_meta_w: bool,
     status: Status,
     is_bg: bool,
     held: Vec<(usize, Mode)>,
@@ -85,6 +90,16 @@ struct Inner {
     progress: u64,
     /// lock-order edges (held class, mode) -> (wanted class, mode), with an example thread name
     edges: BTreeMap<String, std::collections::BTreeSet<String>>,
+    /// hole punches observed: (offset, length, state of every managed thread at that moment)
+    punches: Vec<PunchRec>,
+}
+
+#[derive(Debug, Clone)]
+pub struct PunchRec {
+    pub off: usize,
+    pub len: usize,
+    /// (thread name, "finished" | last named point it stopped at)
+    pub threads: Vec<(String, String)>,
 }
 
 pub struct Sched {
@@ -158,6 +173,7 @@ impl Sched {
                 abort: false,
                 progress: 0,
                 edges: BTreeMap::new(),
+                punches: vec![],
             }),
             cv: Condvar::new(),
         })
@@ -171,7 +187,7 @@ impl Sched {
     fn register(&self, name: &str, is_bg: bool) -> usize {
         let mut g = self.inner.lock().unwrap();
         let id = g.threads.len();
-        g.threads.push(TState { name: name.to_string(), status: Status::Running, is_bg, held: vec![], panic: None });
+        g.threads.push(TState { name: name.to_string(), last_stop: String::new(), took_meta_w: false, status: Status::Running, is_bg, held: vec![], panic: None });
         g.by_os.insert(std::thread::current().id(), id);
         id
     }
@@ -182,6 +198,11 @@ impl Sched {
         let mut g = self.inner.lock().unwrap();
         if g.free_run {
             return true;
+        }
+        if let Status::AtPoint(p) = &status
+            && !p.starts_with("released ")
+        {
+            g.threads[me].last_stop = p.clone();
         }
         g.threads[me].status = status;
         if g.current == Some(me) {
@@ -233,6 +254,11 @@ impl obs::Global for Hook {
                     s.unwind(me);
                 }
             }
+            Event::Punch { off, len } => {
+                let mut g = s.inner.lock().unwrap();
+                let threads = g.threads.iter().map(|t| (t.name.clone(), if t.status == Status::Finished { "finished".to_string() } else if t.took_meta_w { "published".to_string() } else { format!("unpublished@{}", t.last_stop) })).collect();
+                g.punches.push(PunchRec { off: *off, len: *len, threads });
+            }
             Event::Spawn => {
                 if s.me().is_some() {
                     s.inner.lock().unwrap().spawned += 1;
@@ -246,7 +272,7 @@ impl obs::Global for Hook {
                     let mut g = s.inner.lock().unwrap();
                     let n = g.threads.iter().filter(|t| t.is_bg).count();
                     let id = g.threads.len();
-                    g.threads.push(TState { name: format!("bg{n}"), status: Status::Running, is_bg: true, held: vec![], panic: None });
+                    g.threads.push(TState { name: format!("bg{n}"), last_stop: String::new(), took_meta_w: false, status: Status::Running, is_bg: true, held: vec![], panic: None });
                     g.by_os.insert(std::thread::current().id(), id);
                     g.started += 1;
                     id
@@ -317,6 +343,10 @@ impl obs::Global for Hook {
             Mode::Exclusive => ls.writer = Some(me),
         }
         g.threads[me].held.push((addr, mode));
+        // "published": a metadata write lock taken after the data copy of a write path
+        if mode == Mode::Exclusive && class_name(addr) == "meta" && g.threads[me].last_stop.ends_with(":after_copy") {
+            g.threads[me].took_meta_w = true;
+        }
     }
 
     fn lock_released(&self, addr: usize, mode: Mode) {
@@ -352,6 +382,9 @@ pub enum Policy {
     /// follow the forced choices, then continue the running thread while it is enabled
     /// (non-preemptive), else the lowest enabled thread
     Prefix(Vec<usize>),
+    /// same, but the highest enabled thread is the default (the enumeration then starts from
+    /// the opposite end of the schedule tree)
+    PrefixHigh(Vec<usize>),
     /// random choices; `stay` in 0..=100 is the probability (percent) of not switching
     Random { seed: u64, stay: u32 },
     /// directed: for each (thread, wanted class, wanted mode, class it must hold) in turn, run
@@ -366,6 +399,7 @@ pub struct RunResult {
     pub panics: Vec<(String, String)>,
     pub edges: BTreeMap<String, std::collections::BTreeSet<String>>,
     pub thread_names: Vec<String>,
+    pub punches: Vec<PunchRec>,
 }
 
 pub type Job = Box<dyn FnOnce() + Send + 'static>;
@@ -495,7 +529,7 @@ pub fn run(jobs: Vec<(String, Job)>, policy: Policy, on_deadlock: OnDeadlock, ma
                 let g = sched.inner.lock().unwrap();
                 let moved = g.progress != before;
                 println!("CONFIRM progress_after_release={} unfinished={}", moved, g.threads.iter().filter(|t| t.status != Status::Finished).count());
-                return RunResult { end: if moved { RunEnd::Completed } else { RunEnd::Deadlock(dl) }, steps, panics: vec![], edges: g.edges.clone(), thread_names: g.threads.iter().map(|t| t.name.clone()).collect() };
+                return RunResult { end: if moved { RunEnd::Completed } else { RunEnd::Deadlock(dl) }, steps, panics: vec![], edges: g.edges.clone(), thread_names: g.threads.iter().map(|t| t.name.clone()).collect(), punches: g.punches.clone() };
             }
             end = RunEnd::Deadlock(dl);
             g.abort = true;
@@ -529,9 +563,12 @@ pub fn run(jobs: Vec<(String, Job)>, policy: Policy, on_deadlock: OnDeadlock, ma
                 }
                 pick.unwrap_or(enabled[0])
             }
-            Policy::Prefix(p) if k < p.len() && enabled.contains(&p[k]) => p[k],
+            Policy::Prefix(p) | Policy::PrefixHigh(p) if k < p.len() && enabled.contains(&p[k]) => p[k],
             Policy::Prefix(_) => {
                 if last_enabled { last.unwrap() } else { enabled[0] }
+            }
+            Policy::PrefixHigh(_) => {
+                if last_enabled { last.unwrap() } else { *enabled.last().unwrap() }
             }
             Policy::Random { stay, .. } => {
                 if last_enabled && rng.chance(*stay, 100) { last.unwrap() } else { *rng.pick(&enabled) }
@@ -579,12 +616,16 @@ pub fn run(jobs: Vec<(String, Job)>, policy: Policy, on_deadlock: OnDeadlock, ma
     }
     let g = sched.inner.lock().unwrap();
     let panics = g.threads.iter().filter_map(|t| t.panic.clone().map(|p| (t.name.clone(), p))).collect();
-    RunResult { end, steps, panics, edges: g.edges.clone(), thread_names: g.threads.iter().map(|t| t.name.clone()).collect() }
+    RunResult { end, steps, panics, edges: g.edges.clone(), thread_names: g.threads.iter().map(|t| t.name.clone()).collect(), punches: g.punches.clone() }
 }
 
 /// Next forced prefix in a depth-first enumeration of the schedule tree with at most
 /// `max_preempt` pre-emptions; `None` when the tree is exhausted.
 pub fn next_prefix(steps: &[Step], max_preempt: usize) -> Option<Vec<usize>> {
+    next_prefix_dir(steps, max_preempt, false)
+}
+
+pub fn next_prefix_dir(steps: &[Step], max_preempt: usize, high: bool) -> Option<Vec<usize>> {
     // pre-emptions used before each step
     let mut used = vec![0usize; steps.len() + 1];
     for (i, s) in steps.iter().enumerate() {
@@ -597,10 +638,14 @@ pub fn next_prefix(steps: &[Step], max_preempt: usize) -> Option<Vec<usize>> {
         let prev = if k == 0 { None } else { Some(steps[k - 1].chosen) };
         let default = match prev {
             Some(p) if s.enabled.contains(&p) => p,
-            _ => s.enabled[0],
+            _ => if high { *s.enabled.last().unwrap() } else { s.enabled[0] },
         };
         let mut order = vec![default];
-        order.extend(s.enabled.iter().copied().filter(|&t| t != default));
+        if high {
+            order.extend(s.enabled.iter().rev().copied().filter(|&t| t != default));
+        } else {
+            order.extend(s.enabled.iter().copied().filter(|&t| t != default));
+        }
         let pos = order.iter().position(|&t| t == s.chosen)?;
         for &alt in &order[pos + 1..] {
             let is_preempt = prev.is_some_and(|p| s.enabled.contains(&p) && alt != p);
